@@ -66,7 +66,7 @@ PROPS = {
         "trusted_base": ["RFC 3414 section 3.2 (7b) acceptance window as the agent model"],
     },
     "C05": {
-        "standins": ["wire-emit"],
+        "standins": ["wire-emit", "interop-C10"],
         "units": [wire_community.units_c05, wire_v3.units_emit, x690_bytes.units_for(("C05",)), tables.units_walkcall], "level": "other", "design_ref": "7.5",
         "technique": VC + "the real chain operation -> _send -> plug-in loaders -> message processing -> security model -> "
                      "PDU framing executed symbolically; the bytes handed to the sender are compared with an RFC-transcribed "
@@ -92,7 +92,7 @@ PROPS = {
     },
     "C19": {
         "standins": ["trap"],
-        "units": [wire_community.units_c19, seam.units, pythonic.units, pythonic.units_trapview], "level": "other", "design_ref": "7.19",
+        "units": [wire_community.units_c19, seam.units, pythonic.units, pythonic.units_trapview, types_c17.units], "level": "other", "design_ref": "7.19",
         "technique": VC + "register_trap_callback's decode closure executed on a well-formed SNMPv2c notification with symbolic "
                      "leaves: version sniffing, loader, V2CMPM.decode, community check, scheduling of the callback",
         "trusted_base": ["asyncio: ensure_future schedules the coroutine once; an exception escaping a protocol callback is logged "
@@ -138,7 +138,7 @@ PROPS = {
     },
     "C03": {
         "standins": ["faulty", "lean"],
-        "units": [walks.units_c03, x690_oid.units_for(("C01", "C02", "C03"))], "level": "other", "design_ref": "7.3",
+        "units": [walks.units_c03, x690_oid.units_for(("C01", "C02", "C03")), tables.units_propagates], "level": "other", "design_ref": "7.3",
         "technique": VC + "multiwalk with both fetchers against an UNCONSTRAINED agent (arbitrary bindings): inductive invariant "
                      "over ghost sets (continued-from, witnesses, revealed), variant from a finite-universe rank; roots, "
                      "repetitions and response counts enumerated",
@@ -164,7 +164,8 @@ PROPS = {
     },
     "C07": {
         "standins": ["ops-C07"],
-        "units": [api_ops.units, seam.units, wire_v3.units_emit, walks.units_propagate("C07", "puresnmp.exc:InvalidResponseId")],
+        "units": [api_ops.units, seam.units, wire_v3.units_emit, walks.units_propagate("C07", "puresnmp.exc:InvalidResponseId"),
+                  wire_community.units_rx],
         "level": "other", "design_ref": "7.7",
         "technique": VC + "every clock read is a fresh symbolic integer; the id placed in the PDU must equal the id "
                      "validated (caller-side obligation at the _send seam); _send itself verified against its contract",
